@@ -194,7 +194,10 @@ pub(crate) struct PosSubBuilder<T> {
     // map a feature tag + set of lookups to an index
     features: BTreeMap<(Tag, Vec<LookupIdx>), FeatureIdx>,
     // map a conditionset to a map of target features and the lookups to substitute
-    variations: HashMap<RawConditionSet, HashMap<FeatureIdx, Vec<LookupIdx>>>,
+    // the inner map is ordered: its iteration order is the order of the
+    // FeatureTableSubstitutionRecords, which must be sorted by feature index
+    // (and must not depend on the process's hash seed)
+    variations: HashMap<RawConditionSet, BTreeMap<FeatureIdx, Vec<LookupIdx>>>,
 }
 
 trait RemapIds {
